@@ -1043,7 +1043,7 @@ func calleeName(cc *ssa.CallCommon) string {
 		return "invoke " + cc.Value.Type().String() + "." + cc.Method.Name()
 	}
 	if f := cc.StaticCallee(); f != nil {
-		return f.String()
+		return oldName(f)
 	}
 	if b, ok := cc.Value.(*ssa.Builtin); ok {
 		return "builtin " + b.Name()
